@@ -219,6 +219,40 @@ def runPath [DecidableEq L] (p : List (Prim L)) : Head L → List (Bool × Nat) 
       | none => none
     | _ => none
 
+/-! ### a checkable certificate for path-level safety
+
+  `closedUnder p S`: the finite set of heads `S` contains the start head, is closed under every `step` (both outcomes of
+  every condition, every fork child) and no member's step is a failed look-up or the scope error.  Any such `S` is an
+  inductive invariant, so it proves the property for ALL executions (`Lemmas/Closed.lean::closedUnder_sound`); `explore`
+  merely searches for one (its result is not trusted, it is checked). -/
+
+def startHead : Head L := { pos := 0, handlers := [], scopes := [] }
+
+def closedUnder [DecidableEq L] (p : List (Prim L)) (S : List (Head L)) : Bool :=
+  S.contains startHead &&
+  S.all fun h => [true, false].all fun c =>
+    match step p h c with
+    | .next hs => hs.all fun h' => S.contains h'
+    | .keyError => false
+    | .invalidLabel => false
+    | .scopeError => false
+    | _ => true
+
+def explore [DecidableEq L] (p : List (Prim L)) : Nat → List (Head L) → List (Head L) → List (Head L)
+  | 0, _, seen => seen
+  | _, [], seen => seen
+  | f + 1, h :: w, seen =>
+    let succs := [true, false].flatMap fun c =>
+      match step p h c with
+      | .next hs => hs
+      | _ => []
+    let new := (succs.filter fun x => !seen.contains x).eraseDups
+    explore p f (new ++ w) (new ++ seen)
+
+/-- the proved path-level checker: no failed look-up and no "scope already opened" on any execution -/
+def pathSafe [DecidableEq L] (p : List (Prim L)) (fuel : Nat) : Bool :=
+  closedUnder p (explore p fuel [startHead] [startHead])
+
 /-- the real expansion (labels shortened) of `while c: when Ev(): send ..  else: send ..` — witness program of the open
     finding `2.x:scope-reopened`; the harness compares it with what `expand_elements` produces on every run -/
 def whenElseInLoop : List (Prim String) :=
